@@ -76,6 +76,8 @@ deriving Repr, DecidableEq
 
 abbrev Res := Except Exc Term
 
+deriving instance DecidableEq for Except
+
 /-- the operations of a term in evaluation (post-)order: what actually runs, innermost first -/
 def Term.ops : Term → List Op
   | .arg _ | .f32 _ | .f64 _ | .nat _ | .arr _ => []
@@ -83,6 +85,31 @@ def Term.ops : Term → List Op
   | .app1 op a => a.ops ++ [op]
   | .app2 op a b => a.ops ++ b.ops ++ [op]
   | .app3 op a b c => a.ops ++ b.ops ++ c.ops ++ [op]
+
+/-- an interpretation of the core operations in a value domain `V` (for instance the core models of
+    C01–C14, or the core library itself) -/
+structure Interp (V : Type) where
+  arg : String → V
+  f32 : Nat → V
+  f64 : Nat → V
+  nat : Nat → V
+  arr : List Nat → V
+  op0 : Op → V
+  op1 : Op → V → V
+  op2 : Op → V → V → V
+  op3 : Op → V → V → V → V
+
+/-- the value of a composition under an interpretation -/
+def Term.eval {V : Type} (I : Interp V) : Term → V
+  | .arg n => I.arg n
+  | .f32 b => I.f32 b
+  | .f64 b => I.f64 b
+  | .nat n => I.nat n
+  | .arr bs => I.arr bs
+  | .app0 op => I.op0 op
+  | .app1 op a => I.op1 op (a.eval I)
+  | .app2 op a b => I.op2 op (a.eval I) (b.eval I)
+  | .app3 op a b c => I.op3 op (a.eval I) (b.eval I) (c.eval I)
 
 /-! ### Python arguments as the glue sees them -/
 
@@ -143,13 +170,23 @@ def uniformBits (A : Alphabet) : List Nat :=
 def freqsNe (a b : List Nat) : Bool :=
   a.length != b.length || (List.zip a b).any fun (x, y) => f32 x != f32 y
 
+/-- the floating-point facts the branches of the glue depend on.  The theorems quantify over every
+    such structure (no laws assumed); the driver runs the IEEE instance. -/
+structure F32Ops where
+  bgValid : List Nat → Bool                 -- does `Background::new` accept these frequencies?
+  freqsNe : List Nat → List Nat → Bool      -- `a != b` on frequency slices
+  uniform : Alphabet → List Nat             -- `Background::uniform().frequencies()`
+
+/-- IEEE `f32` as executed -/
+def ieee : F32Ops := { bgValid := bgValid, freqsNe := freqsNe, uniform := uniformBits }
+
 /-- the background argument of `log_odds` / `ScoringMatrix.__init__`: the term and its frequencies -/
-def backgroundOf (A : Alphabet) : PyArg → Except Exc (Term × List Nat)
-  | .none => .ok (.app0 .bgUniform, uniformBits A)
+def backgroundOf (F : F32Ops) (A : Alphabet) : PyArg → Except Exc (Term × List Nat)
+  | .none => .ok (.app0 .bgUniform, F.uniform A)
   | .dict es =>
     match dictToAlphabetArray A es with
     | .error e => .error e
-    | .ok p => if bgValid p then .ok (.app1 .bgNew (.arr p), p) else .error .valueError
+    | .ok p => if F.bgValid p then .ok (.app1 .bgNew (.arr p), p) else .error .valueError
   | .float _ => .error .typeError
   | .other => .error .typeError
 
@@ -174,19 +211,19 @@ def normalize (A : Alphabet) (self : Term) (pseudocount : PyArg) : Res :=
 /-- `WeightMatrix.log_odds(background, base)` (repaired: a background that differs from the one the
     weights were computed with is applied by `rescale`; an equal one needs no work).
     `selfBg` = `self.background().frequencies()`. -/
-def logOdds (A : Alphabet) (self : Term) (selfBg : List Nat) (background : PyArg) (base : Nat) : Res :=
-  match backgroundOf A background with
+def logOdds (F : F32Ops) (A : Alphabet) (self : Term) (selfBg : List Nat) (background : PyArg) (base : Nat) : Res :=
+  match backgroundOf F A background with
   | .error e => .error e
   | .ok (bg, freqs) =>
-    let pwm := if freqsNe freqs selfBg then Term.app2 .rescale self bg else Term.app1 .clone self
+    let pwm := if F.freqsNe freqs selfBg then Term.app2 .rescale self bg else Term.app1 .clone self
     .ok (.app2 .toScoringWithBase pwm (.f32 base))
 
 /-- the pinned commit: the arms of `match bg != old { false => rescale(bg), true => clone() }` swapped -/
-def logOddsAsIs (A : Alphabet) (self : Term) (selfBg : List Nat) (background : PyArg) (base : Nat) : Res :=
-  match backgroundOf A background with
+def logOddsAsIs (F : F32Ops) (A : Alphabet) (self : Term) (selfBg : List Nat) (background : PyArg) (base : Nat) : Res :=
+  match backgroundOf F A background with
   | .error e => .error e
   | .ok (bg, freqs) =>
-    let pwm := if freqsNe freqs selfBg then Term.app1 .clone self else Term.app2 .rescale self bg
+    let pwm := if F.freqsNe freqs selfBg then Term.app1 .clone self else Term.app2 .rescale self bg
     .ok (.app2 .toScoringWithBase pwm (.f32 base))
 
 /-! ### matrices built from dictionaries of columns -/
@@ -215,24 +252,25 @@ def countEntries : List (Option Int) → Except Exc (List Nat)
       | .error e => .error e
       | .ok xs => .ok (i.toNat :: xs)
 
+/-- one symbol of the loop of `CountMatrix.__init__`: state = (matrix so far, symbol index) -/
+def countStep (A : Alphabet) (st : Option Rows × Nat) (c : Option CountColumn) : Except Exc (Option Rows × Nat) :=
+  match c with
+  | none => .ok (st.1, st.2 + 1)                          -- key absent
+  | some none => .error .typeError                        -- `column.len()` fails
+  | some (some entries) =>
+    let m := match st.1 with
+      | some m => m
+      | none => List.replicate entries.length (List.replicate A.K 0)
+    if m.length ≠ entries.length then .error .valueError
+    else match countEntries entries with
+      | .error e => .error e
+      | .ok vals => .ok (some (setColumn m st.2 vals), st.2 + 1)
+
 /-- `CountMatrix.__init__(values)`: `cols[j]` is `values.get(letter j)` for the symbols in alphabet order.
     The first column present fixes the number of rows; a column of another length is a `ValueError`;
     no column at all is a `ValueError`; missing columns stay zero.  (`CountMatrix::new` accepts every matrix.) -/
 def countMatrixInit (A : Alphabet) (cols : List (Option CountColumn)) : Except Exc Rows :=
-  let step := fun (st : Option Rows × Nat) (c : Option CountColumn) =>
-    let (data, j) := st
-    match c with
-    | none => Except.ok (data, j + 1)                      -- key absent
-    | some none => .error Exc.typeError                    -- `column.len()` fails
-    | some (some entries) =>
-      let m := match data with
-        | some m => m
-        | none => List.replicate entries.length (List.replicate A.K 0)
-      if m.length ≠ entries.length then .error .valueError
-      else match countEntries entries with
-        | .error e => .error e
-        | .ok vals => .ok (some (setColumn m j vals), j + 1)
-  match cols.foldlM step (none, 0) with
+  match cols.foldlM (countStep A) (none, 0) with
   | .error e => .error e
   | .ok (none, _) => .error .valueError
   | .ok (some m, _) => .ok m
@@ -250,9 +288,9 @@ def scoreEntries : List (Option Nat) → Except Exc (List Nat)
 
 /-- `ScoringMatrix.__init__(values, background)`: the background is extracted first; then as for counts,
     except that a column must be a `list` (`TypeError`) -/
-def scoringMatrixInit (A : Alphabet) (cols : List (Option ScoreColumn)) (background : PyArg) :
+def scoringMatrixInit (F : F32Ops) (A : Alphabet) (cols : List (Option ScoreColumn)) (background : PyArg) :
     Except Exc (Term × Rows) :=
-  match backgroundOf A background with
+  match backgroundOf F A background with
   | .error e => .error e
   | .ok (bg, _) =>
     let step := fun (st : Option Rows × Nat) (c : Option ScoreColumn) =>
